@@ -60,7 +60,7 @@ def build_machine(ctx, prog, explore=True, extra_intrinsics=None):
     S = dict((c['n'], c['v']) for c in states['consts'])
     C = dict((c['n'], c['v']) for c in ctxs['consts'])
     Cn = dict((v, k) for k, v in C.items())
-    ctx.info['states'] = sorted(S, key=S.get)
+    ctx.info['state_names'] = sorted(S, key=S.get)
     ctx.info['contexts'] = sorted(C, key=C.get)
 
     def push_kind(m, env, arg, c):
